@@ -1,7 +1,7 @@
 /* C13: torus rounding / modulus switch -- all functions are loop-free, every harness is a complete
  * proof over the full symbolic input domain for the message-space size VERIF_MSIZE. */
 #include "verif_prelude.h"
-#include "numeric.h"
+#include "c_numeric.h"
 #include "extracted.inc"
 
 #ifdef VERIF_MSIZE
